@@ -83,7 +83,19 @@ ADDITIONAL GUIDANCE FOR ROUND 4: three rounds of seeding have already covered th
     return base.replace("\n\nALREADY TRIED", extra + "\n\nALREADY TRIED", 1)
 
 
+def prompt5(pid: str) -> str:
+    """Round 5: as round 4 (already-tried list grows), emphasis on the small print: patterns, formats, comparisons, arithmetic."""
+    base = prompt3(pid).replace(f"/tmp/seed3-{pid}", f"/tmp/seed5-{pid}")
+    extra = """
+
+ADDITIONAL GUIDANCE FOR ROUND 5: four rounds of seeding have covered the central functions and their helpers, tables, boundary values, object histories, aliasing and rarely used object kinds. What is left is the small print: (1) regular expressions - an anchor, a quantifier, a character class, an alternation order, a flag, a greedy/non-greedy match, a group that became optional or non-capturing; (2) text handling - strip/split/join/partition details, case, separators, f-string fields, where blanks go, what happens with tabs or repeated blanks, trailing text; (3) comparisons and ordering - `__eq__`, `__hash__`, `__lt__`, sort keys, `<` vs `<=`, comparisons of strings that should be numbers, `is` vs `==`, truthiness of 0 / "" / empty containers; (4) arithmetic and bit operations - masks, shifts, prefix lengths, off-by-one in ranges, integer vs string numbers; (5) defaults and optional arguments - a default that changed, a keyword that is no longer passed on, a `kwargs.get` with the wrong key or default, `or` used for defaults where 0/""/[] are legitimate values; (6) log records and error types - which logger level, which exception class is raised or caught, a message that no longer names the offending line. Choose mechanisms of these kinds, and prefer places that the lists of earlier attempts below do not mention."""
+    return base.replace("\n\nALREADY TRIED", extra + "\n\nALREADY TRIED", 1)
+
+
 if __name__ == "__main__":
+    if len(sys.argv) > 2 and sys.argv[2] == "5":
+        print(prompt5(sys.argv[1]))
+        sys.exit(0)
     if len(sys.argv) > 2 and sys.argv[2] == "4":
         print(prompt4(sys.argv[1]))
         sys.exit(0)
